@@ -830,6 +830,8 @@ def _read_namespaced_map(ctx: ReaderContext) -> lmap.PersistentMap:
         ctx.reader.advance()
         current_ns = get_current_ns()
         map_ns = current_ns.name
+    elif ctx.reader.peek() == "":
+        raise ctx.eof_error("Unexpected EOF in namespaced map")
     else:
         kw_ns, map_ns = _read_namespaced(ctx)
         if kw_ns is not None:
@@ -980,6 +982,8 @@ def _read_unicode_escape_seq(ctx: ReaderContext) -> str:
 
     unicode_hex = "".join(unicode_escape_seq)
     if len(unicode_hex) not in {4, 8}:
+        if char == "":
+            raise ctx.eof_error("Unexpected EOF in unicode escape sequence")
         raise ctx.syntax_error(
             f"Unicode escape sequence must be exactly 4 or 8 hex digits; got '{unicode_hex}'"
         )
@@ -1004,11 +1008,11 @@ def _read_str(ctx: ReaderContext, raw_string: bool = False) -> str:
             raise ctx.eof_error("Unexpected EOF in string")
         if char == "\\":
             char = reader.next_char()
+            if char == "":
+                raise ctx.eof_error("Unexpected EOF in string")
             if raw_string:
                 # escape sequences are kept as written, but an escaped character -- a
                 # double quote in particular -- never terminates the literal
-                if char == "":
-                    raise ctx.eof_error("Unexpected EOF in string")
                 s.append("\\")
                 s.append(char)
                 continue
@@ -1040,6 +1044,8 @@ def _read_fstr(ctx: ReaderContext) -> str | llist.PersistentList:
             raise ctx.eof_error("Unexpected EOF in string")
         if char == "\\":
             char = reader.next_char()
+            if char == "":
+                raise ctx.eof_error("Unexpected EOF in string")
             if (escape_char := _STR_ESCAPE_CHARS.get(char, None)) is not None:
                 s.append(escape_char)
                 continue
@@ -1064,6 +1070,8 @@ def _read_fstr(ctx: ReaderContext) -> str | llist.PersistentList:
             expr = _read_next_form(ctx, "string")
             elems.append(expr)
             char = _consume_whitespace(ctx)
+            if char == "":
+                raise ctx.eof_error("Unexpected EOF in string")
             if char != "}":
                 raise ctx.syntax_error("Expected single expression in f-string")
             continue
@@ -1089,6 +1097,8 @@ def _read_hex_byte(ctx: ReaderContext) -> bytes:
     reader = ctx.reader
     c1 = reader.next_char()
     c2 = reader.next_char()
+    if c1 == "" or c2 == "":
+        raise ctx.eof_error("Unexpected EOF in byte string")
     try:
         return bytes([int(f"0x{c1}{c2}", base=16)])
     except ValueError as e:
@@ -1107,6 +1117,8 @@ def _read_byte_str(ctx: ReaderContext) -> bytes:
 
     char = _consume_whitespace(ctx)
 
+    if char == "":
+        raise ctx.eof_error("Unexpected EOF in byte string")
     if char != '"':
         raise ctx.syntax_error(f"Expected '\"'; got '{char}' instead")
 
@@ -1116,9 +1128,11 @@ def _read_byte_str(ctx: ReaderContext) -> bytes:
         if char == "":
             raise ctx.eof_error("Unexpected EOF in byte string")
         if ord(char) < 1 or ord(char) > 127:
-            raise ctx.eof_error("Byte strings must contain only ASCII characters")
+            raise ctx.syntax_error("Byte strings must contain only ASCII characters")
         if char == "\\":
             char = reader.next_char()
+            if char == "":
+                raise ctx.eof_error("Unexpected EOF in byte string")
             escape_char = _BYTES_ESCAPE_CHARS.get(char, None)
             if escape_char:
                 b.append(escape_char)
@@ -1580,6 +1594,8 @@ _NUMERIC_CONSTANTS = {
 def _read_numeric_constant(ctx: ReaderContext) -> float:
     start = ctx.reader.advance()
     assert start == "#"
+    if ctx.reader.peek() == "":
+        raise ctx.eof_error("Unexpected EOF in numeric constant")
     ns, name = _read_namespaced(ctx)
     if ns is not None:
         raise ctx.syntax_error(f"Unrecognized numeric constant: '##{ns}/{name}'")
@@ -1681,12 +1697,16 @@ def _read_reader_conditional(ctx: ReaderContext) -> LispReaderForm:
         ctx.reader.advance()
     elif char == "(":
         is_splicing = False
+    elif char == "":
+        raise ctx.eof_error("Unexpected EOF in reader conditional")
     else:
         raise ctx.syntax_error(
             f"Unexpected char '{char}'; expected opening '(' for reader conditional"
         )
 
     open_char = reader.advance()
+    if open_char == "":
+        raise ctx.eof_error("Unexpected EOF in reader conditional")
     if open_char != "(":
         raise ctx.syntax_error(
             f"Expected opening '(' for reader conditional; got '{open_char}'"
@@ -1863,6 +1883,8 @@ def _read_reader_macro(ctx: ReaderContext) -> LispReaderForm:
 
         return _resolve_tagged_literal(ctx, s, v)
 
+    if char == "":
+        raise ctx.eof_error("Unexpected EOF in reader macro")
     raise ctx.syntax_error(f"Unexpected char '{char}' in reader macro")
 
 
